@@ -1,7 +1,10 @@
 package rules
 
 import (
+	"fmt"
 	"go/ast"
+	"go/token"
+	"go/types"
 	"strings"
 
 	"mlverif/core"
@@ -127,6 +130,73 @@ func checkLabelWiring(c *Ctx) {
 		}
 		c.Check("C16/remover/"+name+"/has-label-exit", ruleS, fn.Decl.Pos(), n >= 1, "no exit returns a label")
 	}
+	// the stream remover waits for the whole header: the label bytes come from a Peek that asks for
+	// at least 2+size bytes (Peek blocks until that many arrived or the stream ends), so a header
+	// that arrives in several fragments is still read completely
+	sr := c.MustFunc("RemoveLabelHeaderFromStream")
+	ruleF := "stream header removal is independent of fragmentation: the bytes the label is sliced from were requested with Peek(n), n >= 2 + size, and the size byte with Peek(n), n >= 2"
+	c.Rule(ruleF)
+	var peeks []*ast.CallExpr
+	ast.Inspect(sr.Decl.Body, func(n ast.Node) bool {
+		if call, ok := n.(*ast.CallExpr); ok {
+			if f := p.Callee(call); f != nil && core.FuncFullName(f) == "bufio.Reader.Peek" && len(call.Args) == 1 {
+				peeks = append(peeks, call)
+			}
+		}
+		return true
+	})
+	ast.Inspect(sr.Decl.Body, func(n ast.Node) bool {
+		var need ast.Expr
+		var pos ast.Node
+		switch v := n.(type) {
+		case *ast.SliceExpr: // peeked[2 : 2+size]
+			if v.High != nil && v.Low != nil {
+				need, pos = v.High, v
+			}
+		case *ast.IndexExpr: // peeked[1]
+			if k, ok := p.ConstInt(v.Index); ok && k >= 1 {
+				if _, isMap := p.TypeOf(v.X).Underlying().(*types.Map); !isMap && byteLike(p.TypeOf(v.X)) {
+					need, pos = &ast.BasicLit{Kind: token.INT, Value: fmt.Sprint(k + 1)}, v
+				}
+			}
+		}
+		if need == nil {
+			return true
+		}
+		// the latest Peek before this use
+		var last *ast.CallExpr
+		for _, pk := range peeks {
+			if pk.End() <= pos.Pos() {
+				last = pk
+			}
+		}
+		if last == nil {
+			return true
+		}
+		nm := func(e ast.Expr) string { return norm(p.Canon(e)) }
+		have, hk, ok1 := linear(p, last.Args[0], nm)
+		want, wk, ok2 := map[string]int64{}, int64(0), true
+		if bl, isLit := need.(*ast.BasicLit); isLit {
+			fmt.Sscan(bl.Value, &wk)
+		} else {
+			want, wk, ok2 = linear(p, need, nm)
+		}
+		good := ok1 && ok2 && hk >= wk
+		if good {
+			for t, cw := range want {
+				if have[t] != cw {
+					good = false
+				}
+			}
+			for t, ch := range have {
+				if want[t] != ch {
+					good = false
+				}
+			}
+		}
+		c.Check("C16/remover/stream-waits-for-header/"+nm(need), ruleF, pos.Pos(), good, "bytes up to "+nm(need)+" are taken from Peek("+nm(last.Args[0])+"), which does not wait for them: a header split across reads is reported as truncated")
+		return true
+	})
 	mk := c.MustFunc("makeLabelHeader")
 	src := p.Canon(&ast.ParenExpr{X: ast.NewIdent("_")})
 	_ = src
